@@ -81,7 +81,7 @@ def body(run):
                       "beh": {"steps": [], "results": []}})
     run.log("TLC: %d states; %d scripts generated (%d classes), %d sampled, %d many-caller runs" % (
         run.cov["states"], len(rows), nclasses, len(cases) - len(stress), len(stress)))
-    results = run.go_run(exe[0], ["-prop", "C18", "-budget", run.pick("6m", "35m")], cases=cases, timeout=run.pick(600, 2400), env=sc.race_env())
+    results = run.go_run(exe[0], ["-prop", "C18", "-budget", run.pick("6m", "20m")], cases=cases, timeout=run.pick(900, 3000), env=sc.race_env())
     if len(results) < len(cases):
         raise vf.Inconclusive("harness returned %d results for %d cases" % (len(results), len(cases)))
     run.absorb(results)
